@@ -289,7 +289,10 @@ def consumers(ctx, rule='A5c'):
              (isinstance(x, ast.Call) and call_name(x) in ('intersection', 'intersection_update'))]
     union = [x for x in unit_nodes if (isinstance(x, (ast.BinOp, ast.AugAssign)) and isinstance(x.op, ast.BitOr) and
                                        'i_set' in norm(x)) or
-             (isinstance(x, ast.Call) and call_name(x) in ('union', 'update') and 'i_set' in norm(x))]
+             (isinstance(x, ast.Call) and call_name(x) in ('union', 'update') and 'i_set' in norm(x)) or
+             # boolean-mask form of the union: mask[list(its.i_set)] = True
+             (isinstance(x, ast.Assign) and isinstance(x.targets[0], ast.Subscript) and
+              'i_set' in norm(x.targets[0].slice) and isinstance(x.value, ast.Constant) and x.value.value is True)]
     ok = bool(eq) and bool(inter) and bool(union)
     ctx.ob(rule, fkey(f, rule, 'available-combinations'), ok, f.where,
            'a combination is available iff for every fixed choice some scenario containing it selects exactly '
